@@ -268,7 +268,7 @@ pub fn run(ctx: &Ctx) -> i32 {
     );
     rep.assume("inclusive-end convention and char (not byte) indexing, as in the repository's own golden JSON files");
     rep.assume("a diagnostic on an implicit operand (ret, call, jal L) legitimately carries the mnemonic's range");
-    let per_shard = ctx.tier.pick(10, 600);
+    let per_shard = ctx.tier.pick(30, 600);
     let acc = run_sharded(ctx, |shard| {
         let mut acc = Acc::new();
         for k in 0..per_shard {
